@@ -105,6 +105,12 @@ def _ops():
         ("Path(pre.txt).open('a')", pw("pre.txt", "a")), ("Path(new.txt).open('w')", pw("new.txt", "w")),
         ("os.open(pre.txt,O_WRONLY|O_APPEND)", osopen("pre.txt", os.O_WRONLY | os.O_APPEND)),
         ("os.open(new5.txt,O_CREAT|O_WRONLY)", osopen("new5.txt", os.O_CREAT | os.O_WRONLY)),
+        # every flag that changes the file or the directory counts, whatever the access mode says
+        ("os.open(pre.txt,O_RDONLY|O_TRUNC)", osopen("pre.txt", os.O_RDONLY | os.O_TRUNC)),
+        ("os.open(pre.txt,O_WRONLY|O_TRUNC)", osopen("pre.txt", os.O_WRONLY | os.O_TRUNC)),
+        ("os.open(predir/inner.txt,O_RDWR|O_TRUNC)", osopen("predir/inner.txt", os.O_RDWR | os.O_TRUNC)),
+        ("os.open(new6.txt,O_RDONLY|O_CREAT)", osopen("new6.txt", os.O_RDONLY | os.O_CREAT)),
+        ("os.open(pre.txt,O_RDONLY|O_APPEND)", osopen("pre.txt", os.O_RDONLY | os.O_APPEND)),
         ("os.mkdir(newdir)", lambda sb: os.mkdir(j(sb, "newdir"))), ("os.mkdir(predir)", lambda sb: os.mkdir(j(sb, "predir"))),
         ("os.makedirs(predir,exist_ok=True)", lambda sb: os.makedirs(j(sb, "predir"), exist_ok=True)),
         ("os.makedirs(newdir/sub)", lambda sb: os.makedirs(j(sb, "newdir", "sub"))),
